@@ -577,3 +577,37 @@ def bool_nf(node, canon=ast.unparse):
             l, r = r, l
         return f'{l} {sym} {r}'
     return canon(node)
+
+
+def nnf(node, canon=ast.unparse, neg=False):
+    """negation normal form on top of bool_nf: negations pushed to the atoms (De Morgan), AC-sorted."""
+    if isinstance(node, ast.BoolOp):
+        is_and = isinstance(node.op, ast.And)
+        tag = 'and' if (is_and != neg) else 'or'
+        kids = []
+        for v in node.values:
+            k = nnf(v, canon, neg)
+            if isinstance(k, tuple) and k[0] == tag:
+                kids.extend(k[1])
+            else:
+                kids.append(k)
+        return (tag, tuple(sorted(kids, key=repr)))
+    if isinstance(node, ast.UnaryOp) and isinstance(node.op, ast.Not):
+        return nnf(node.operand, canon, not neg)
+    if neg:
+        n2 = negate(node)
+        if isinstance(n2, ast.UnaryOp) and isinstance(n2.op, ast.Not):
+            return ('not', bool_nf(node, canon))
+        return bool_nf(n2, canon)
+    return bool_nf(node, canon)
+
+
+def guards_nnf(guards):
+    """conjunction of guard strings -> NNF"""
+    if not guards:
+        return ('and', ())
+    src = ' and '.join(f'({g})' for g in guards)
+    r = nnf(ast.parse(src, mode='eval').body)
+    if not (isinstance(r, tuple) and r[0] == 'and'):
+        r = ('and', (r,))
+    return r
